@@ -8,14 +8,19 @@ import VpnCloud.Proofs.Lemmas.C17MoreLemmas
   made with another password is ignored unless hash outputs collide, the age window is symmetric on the
   16-bit hour counter.
 
-  The definitions used to state the theorems (`Checked.*`, `MarkersOK`, `KsU8`, `interleave`, `NoOverlap`,
+  The definitions used to state the theorems (`Checked.*`, `Old.*`, `MarkersOK`, `interleave`, `NoOverlap`,
   `Unbordered`) are in `Proofs/Lemmas/C17MoreLemmas.lean`.
+
+  The block counter of `mask_with_keystream` is the wrapping `u8` of the repaired code (/repo commit "fix: do not
+  overflow the keystream block counter …"): `decode_never_panics` holds for texts of every length in every build
+  profile.  The overflow panic of the code before the fix is kept as a machine-checked regression record in
+  section 1b (`old_counter_overflows`, `overflow_text_exists_old`).
 -/
 namespace VpnCloud.Proofs.C17More
 
 open VpnCloud VpnCloud.Beacon VpnCloud.Codec VpnCloud.Base62 VpnCloud.Spec.C17 VpnCloud.Proofs.C17
 open VpnCloud.Proofs.BeaconLemmas VpnCloud.Proofs.C17MoreLemmas
-open VpnCloud.Proofs.C17More.Checked
+open VpnCloud.Proofs.C17More.Checked VpnCloud.Proofs.C17More.Old
 
 /-! ## 1. `decode` never panics -/
 
@@ -66,75 +71,133 @@ theorem decodeLoop_fuel (env : BeaconEnv) (data : List Char) (ttl : Option Nat) 
           simp only []
           rw [ih m _ hb (by omega) (by omega)]
 
-/-- **decode_never_panics** (release build, `u8` arithmetic wraps): for EVERY text, time and ttl, none of the
-    panic sites of `decode` / `peerlist_decode` / `decrypt_data` / `mask_with_keystream` is reached (slices,
-    indices, `expect` on `from_base62`, `unwrap`, the two `assert!`s), the loop ends, and the result is the one
-    of the model.  The hypotheses concern the key only: the hash returns 64 proper bytes (`EnvWF`), its third
-    argument is a byte (`KsU8`), and `begin()` / `end()` themselves do not panic (`MarkersOK`). -/
-theorem decode_never_panics (env : BeaconEnv) (h : EnvWF env) (hu : KsU8 env) (hm : MarkersOK env)
+/-- **decode_never_panics**: for EVERY text (of any length), time and ttl, in every build profile, none of the panic
+    sites of `decode` / `peerlist_decode` / `decrypt_data` / `mask_with_keystream` is reached (slices, indices,
+    `expect` on `from_base62`, `unwrap`, the two `assert!`s; the block counter wraps), the loop ends, and the result
+    is the one of the model.  The hypotheses concern the key only: the hash returns 64 proper bytes (`EnvWF`) and
+    `begin()` / `end()` themselves do not panic (`MarkersOK`: needed, see `zeroEnv` below; it holds whenever the two
+    marker hashes do not start with 61 zero bytes, `markersOK_of_nonzero`). -/
+theorem decode_never_panics (env : BeaconEnv) (h : EnvWF env) (hm : MarkersOK env)
     (text : List Char) (ttl : Option Nat) (now : Nat) :
-    decodeChk false env text ttl now = some (decode env text ttl now) := by
+    decodeChk env text ttl now = some (decode env text ttl now) := by
   obtain ⟨⟨sb, hb1, hb2⟩, ⟨se, he1, he2⟩⟩ := hm
   obtain ⟨eb, lb⟩ := markerChk_some env TYPE_BEGIN sb hb1 hb2
   obtain ⟨ee, _⟩ := markerChk_some env TYPE_END se he1 he2
   unfold decodeChk decode
   rw [eb, ee]
-  exact decodeLoopChk_eq false env h (sanitize text) ttl now (sanitize_alnum text) (maskOK_release env h hu _)
+  exact decodeLoopChk_eq env h (sanitize text) ttl now (sanitize_alnum text)
     (by show 1 ≤ (marker env TYPE_BEGIN).length; omega) _ 0 (Nat.zero_le _) (by omega)
 
-/-- **decode_never_panics**, build with overflow checks (debug / test profile): no panic for every text with at
-    most 4096 alphanumeric characters -/
+/-- **decode_never_panics**, build with overflow checks (debug / test profile).  Since the fix of the block counter
+    the build profile makes no difference and there is no bound on the length of the text any more (before the fix:
+    at most 4096 alphanumeric characters, see section 1b); the name is kept for the record. -/
 theorem decode_never_panics_checked (env : BeaconEnv) (h : EnvWF env) (hm : MarkersOK env)
-    (text : List Char) (ttl : Option Nat) (now : Nat) (hlen : (sanitize text).length ≤ 4096) :
-    decodeChk true env text ttl now = some (decode env text ttl now) := by
-  obtain ⟨⟨sb, hb1, hb2⟩, ⟨se, he1, he2⟩⟩ := hm
-  obtain ⟨eb, lb⟩ := markerChk_some env TYPE_BEGIN sb hb1 hb2
-  obtain ⟨ee, _⟩ := markerChk_some env TYPE_END se he1 he2
-  unfold decodeChk decode
-  rw [eb, ee]
-  exact decodeLoopChk_eq true env h (sanitize text) ttl now (sanitize_alnum text)
-    (maskOK_checked env h _ (by omega))
-    (by show 1 ≤ (marker env TYPE_BEGIN).length; omega) _ 0 (Nat.zero_le _) (by omega)
+    (text : List Char) (ttl : Option Nat) (now : Nat) :
+    decodeChk env text ttl now = some (decode env text ttl now) :=
+  decode_never_panics env h hm text ttl now
 
-/-- with overflow checks `mask_with_keystream` panics exactly on 4096 bytes or more (`iter += 1` on a `u8`) -/
-theorem mask_overflow_iff (env : BeaconEnv) (h : EnvWF env) (t s : Nat) (d : Bytes) :
-    maskFromChk true env t s d 0 0 = none ↔ 4096 ≤ d.length := by
-  rw [maskFromChk_checked env h t s d 0 0 (by omega) (by omega)]
+/-- `begin()` / `end()` do not panic iff each of the two marker hashes, read as a big-endian number, is at least
+    `62^4` (then its base-62 text has 5 characters or more); that `to_base62` itself does not panic follows from the
+    definitions -/
+theorem markersOK_iff (env : BeaconEnv) (h : EnvWF env) :
+    MarkersOK env ↔ 14776336 ≤ Bytes.beVal (env.ks TYPE_BEGIN 0 0) ∧ 14776336 ≤ Bytes.beVal (env.ks TYPE_END 0 0) := by
+  unfold MarkersOK
+  rw [toBase62_len5_iff _ (h.ks_wf TYPE_BEGIN 0 0).1, toBase62_len5_iff _ (h.ks_wf TYPE_END 0 0).1]
+
+/-- the marker hashes do not begin with 61 zero bytes (for SHA-512 and a given key: all but a fraction of `2^-487`
+    of the outputs) -/
+def MarkerHashesNonzero (env : BeaconEnv) : Prop :=
+  (∃ i, i ≤ 60 ∧ (env.ks TYPE_BEGIN 0 0).getD i 0 ≠ 0) ∧ (∃ i, i ≤ 60 ∧ (env.ks TYPE_END 0 0).getD i 0 ≠ 0)
+
+theorem markersOK_of_nonzero (env : BeaconEnv) (h : EnvWF env) (hn : MarkerHashesNonzero env) : MarkersOK env := by
+  obtain ⟨⟨i, hi, hx⟩, ⟨j, hj, hy⟩⟩ := hn
+  exact ⟨len5_of_nonzero _ (h.ks_wf _ 0 0).1 (h.ks_wf _ 0 0).2 i hi hx,
+    len5_of_nonzero _ (h.ks_wf _ 0 0).1 (h.ks_wf _ 0 0).2 j hj hy⟩
+
+/-- **decode_never_panics** with the hypothesis on the markers replaced by a plain condition on the two marker
+    hashes: neither begins with 61 zero bytes -/
+theorem decode_never_panics_of_hash (env : BeaconEnv) (h : EnvWF env) (hn : MarkerHashesNonzero env)
+    (text : List Char) (ttl : Option Nat) (now : Nat) :
+    decodeChk env text ttl now = some (decode env text ttl now) :=
+  decode_never_panics env h (markersOK_of_nonzero env h hn) text ttl now
+
+/-- the mask loop of the current code does not panic on data of any length (in particular beyond 4096 bytes) and
+    computes `mask` -/
+theorem mask_never_panics (env : BeaconEnv) (h : EnvWF env) (t s : Nat) (d : Bytes) :
+    maskFromChk env t s d 0 0 = some (mask env d t s) :=
+  maskFromChk_eq env h t s d 0 0 (by omega)
+
+/-- **long_body_roundtrip**, instrumented code: encrypting and decrypting a body of any length (in particular of
+    more than 4096 bytes) reaches no panic site and returns the body -/
+theorem long_body_roundtrip_checked (env : BeaconEnv) (h : EnvWF env) (d : Bytes) :
+    decryptDataChk env (encryptData env d) = some (some d) := by
+  rw [decryptDataChk_eq env h, VpnCloud.Proofs.C17.encrypt_decrypt env h d]
+
+/-! ## 1b. REGRESSION: the defect that was fixed in /repo commit "fix: do not overflow the keystream block counter …"
+
+  Before the fix `mask_with_keystream` counted key stream blocks with `iter += 1` on a `u8`; in a build with overflow
+  checks (debug / test profile) beacon extraction panicked ("attempt to add with overflow") on a candidate body of
+  more than 4096 bytes — replayed on the real code with begin marker + 5600 alphanumeric characters + end marker.
+  `Old.maskFromOld` / `Old.decryptDataOld` / `Old.peerlistDecodeOld` are the instrumented copy of the OLD code; the
+  theorems of this section keep the history of the finding machine-checked, `fixed_*` show the same inputs on the
+  current code. -/
+
+/-- **old_counter_overflows** (OLD code, overflow checks): the mask loop panics exactly when it is given 4096 bytes
+    or more (`iter += 1` with `iter = 255` when the 256th block ends); below that it computes `mask` -/
+theorem old_counter_overflows (env : BeaconEnv) (h : EnvWF env) (t s : Nat) (d : Bytes) :
+    (maskFromOld env t s d 0 0 = none ↔ 4096 ≤ d.length) ∧
+    (d.length < 4096 → maskFromOld env t s d 0 0 = some (mask env d t s)) := by
+  rw [maskFromOld_eq env h t s d 0 0 (by omega) (by omega)]
   by_cases hc : 4096 ≤ 16 * 0 + 0 + d.length
-  · rw [if_pos hc]; exact ⟨fun _ => (by omega), fun _ => rfl⟩
-  · rw [if_neg hc]; exact ⟨fun e => (by cases e), fun h' => (by omega)⟩
+  · rw [if_pos hc]; exact ⟨⟨fun _ => (by omega), fun _ => rfl⟩, fun h' => (by omega)⟩
+  · rw [if_neg hc]; exact ⟨⟨fun e => (by cases e), fun h' => (by omega)⟩, fun _ => rfl⟩
 
-/-- … so in a build with overflow checks a candidate body of 4097 bytes or more makes `peerlist_decode` panic -/
-theorem peerlistDecode_overflow_panics (env : BeaconEnv) (h : EnvWF env) (text : List Char) (data : Bytes)
-    (ttl : Option Nat) (now : Nat) (e : fromBase62 text = .ok data) (hl : 4097 ≤ data.length) :
-    peerlistDecodeChk true env text ttl now = none := by
-  have hm := (mask_overflow_iff env h TYPE_DATA
-    ((data.getLast?.getD 0) ^^^ (env.ks TYPE_SEED 0 0).getD 0 0) data.dropLast).mpr
-    (by rw [List.length_dropLast]; omega)
-  unfold peerlistDecodeChk
-  rw [e]
-  simp only []
-  rw [if_neg (by omega)]
-  unfold decryptDataChk
+/-- (OLD code) `decrypt_data` masks the candidate without its last byte (the seed): it panics exactly when the
+    candidate body is LONGER THAN 4096 bytes -/
+theorem old_decrypt_overflows (env : BeaconEnv) (h : EnvWF env) (data : Bytes) :
+    decryptDataOld env data = none ↔ 4096 < data.length := by
+  unfold decryptDataOld
   cases hg : data.getLast? with
   | none =>
     have : data = [] := by simpa using hg
-    subst this; simp at hl
+    subst this
+    exact ⟨fun e => (by cases e), fun hl => (by simp at hl)⟩
   | some last =>
     have hne : data.isEmpty = false := by
       cases data with
-      | nil => simp at hl
+      | nil => simp at hg
       | cons _ _ => rfl
-    rw [hg] at hm
+    have hlen : data.dropLast.length = data.length - 1 := List.length_dropLast
+    have hpos : 0 < data.length := by
+      cases data with
+      | nil => simp at hg
+      | cons _ _ => simp
     simp only [hne, Bool.false_eq_true, if_false]
     rw [ks_idx env h _ _ _ _ (by omega)]
     simp only []
-    rw [Option.getD_some] at hm
-    rw [hm]
+    have hm := old_counter_overflows env h TYPE_DATA (last ^^^ (env.ks TYPE_SEED 0 0).getD 0 0) data.dropLast
+    cases hr : maskFromOld env TYPE_DATA (last ^^^ (env.ks TYPE_SEED 0 0).getD 0 0) data.dropLast 0 0 with
+    | none =>
+      have := hm.1.mp hr
+      exact ⟨fun _ => (by omega), fun _ => rfl⟩
+    | some body =>
+      simp only []
+      refine ⟨fun e => (by cases e), fun hl => ?_⟩
+      have := hm.1.mpr (by omega)
+      rw [hr] at this; cases this
 
-/-- such a text exists for every key (4097 bytes of value 1, as base-62 text) -/
-theorem overflow_text_exists (env : BeaconEnv) (h : EnvWF env) (ttl : Option Nat) (now : Nat) :
-    ∃ text : List Char, (∀ c ∈ text, c.isAlphanum = true) ∧ peerlistDecodeChk true env text ttl now = none := by
+/-- (OLD code) … so a candidate text that denotes more than 4096 bytes made `peerlist_decode` panic -/
+theorem peerlistDecode_overflow_panics_old (env : BeaconEnv) (h : EnvWF env) (text : List Char) (data : Bytes)
+    (ttl : Option Nat) (now : Nat) (e : fromBase62 text = .ok data) (hl : 4096 < data.length) :
+    peerlistDecodeOld env text ttl now = none := by
+  unfold peerlistDecodeOld
+  rw [e]
+  simp only []
+  rw [if_neg (by omega), (old_decrypt_overflows env h data).mpr hl]
+
+/-- the witness of the finding: 4097 bytes of value 1 as base-62 text (alphanumeric, 4097 bytes after decoding) -/
+theorem long_text_exists : ∃ text : List Char, (∀ c ∈ text, c.isAlphanum = true) ∧
+    fromBase62 text = .ok (List.replicate 4097 1) := by
   have hwf : Bytes.WF (List.replicate 4097 1) := Bytes.wf_replicate _ _ (by omega)
   obtain ⟨cs, e1, e2⟩ := VpnCloud.Proofs.C18.from_to (List.replicate 4097 1) hwf
   have hhd : (List.replicate 4097 1).head? ≠ some 0 := by
@@ -142,8 +205,36 @@ theorem overflow_text_exists (env : BeaconEnv) (h : EnvWF env) (ttl : Option Nat
     intro hc
     exact absurd (Option.some.inj hc) (by decide)
   rw [dlz_id _ hhd] at e2
-  exact ⟨cs, toBase62_alnum _ hwf cs e1,
-    peerlistDecode_overflow_panics env h cs _ ttl now e2 (by rw [List.length_replicate]; omega)⟩
+  exact ⟨cs, toBase62_alnum _ hwf cs e1, e2⟩
+
+/-- **overflow_text_exists_old** (OLD code, overflow checks): for every key there is an alphanumeric text on which
+    `peerlist_decode` panicked — the defect that was fixed — while the CURRENT code decodes the very same text
+    without reaching a panic site -/
+theorem overflow_text_exists_old (env : BeaconEnv) (h : EnvWF env) (ttl : Option Nat) (now : Nat) :
+    ∃ text : List Char, (∀ c ∈ text, c.isAlphanum = true) ∧
+      peerlistDecodeOld env text ttl now = none ∧
+      peerlistDecodeChk env text ttl now = some (peerlistDecode env text ttl now) := by
+  obtain ⟨cs, hal, e⟩ := long_text_exists
+  exact ⟨cs, hal,
+    peerlistDecode_overflow_panics_old env h cs _ ttl now e (by rw [List.length_replicate]; omega),
+    peerlistDecodeChk_eq env h cs ttl now hal⟩
+
+/-- on short candidates (at most 4096 bytes) the old code and the current code agree: the fix changed nothing else -/
+theorem old_agrees_below (env : BeaconEnv) (h : EnvWF env) (data : Bytes) (hl : data.length ≤ 4096) :
+    decryptDataOld env data = decryptDataChk env data := by
+  unfold decryptDataOld decryptDataChk
+  cases hg : data.getLast? with
+  | none => rfl
+  | some last =>
+    simp only []
+    rw [ks_idx env h _ _ _ _ (by omega)]
+    simp only []
+    have hlen : data.dropLast.length = data.length - 1 := List.length_dropLast
+    have hpos : 0 < data.length := by
+      cases data with
+      | nil => simp at hg
+      | cons _ _ => simp
+    rw [(old_counter_overflows env h _ _ data.dropLast).2 (by omega), mask_never_panics env h]
 
 /-! ## 2. a beacon embedded in arbitrary text is found -/
 
@@ -620,11 +711,6 @@ def toyBeacon : List Char := "ERzuwDRPvoXOHri1VECYTSk9Vq2NrqabOphE1BoLssIKbnqgec
 
 theorem toyBeacon_eq : encode toyEnv toyPeers 1000 = some toyBeacon := by decide +kernel
 
-theorem toy_ksU8 : KsU8 toyEnv := by
-  intro t s i
-  show List.replicate 64 ((7 * t + 3 * s + i + 1) % 256) = List.replicate 64 ((7 * t + 3 * s + i % 256 + 1) % 256)
-  congr 1; omega
-
 theorem toy_markersOK : MarkersOK toyEnv :=
   ⟨⟨(toBase62 (toyEnv.ks TYPE_BEGIN 0 0)).getD [], by decide +kernel, by decide +kernel⟩,
    ⟨(toBase62 (toyEnv.ks TYPE_END 0 0)).getD [], by decide +kernel, by decide +kernel⟩⟩
@@ -636,18 +722,47 @@ theorem toy_unbordered : Unbordered (beginMarker toyEnv) := by rw [toy_begin]; d
 
 /-- all hypotheses of `decode_never_panics` hold for the toy key -/
 example (text : List Char) (ttl : Option Nat) (now : Nat) :
-    decodeChk false toyEnv text ttl now = some (decode toyEnv text ttl now) :=
-  decode_never_panics toyEnv toyEnv_wf toy_ksU8 toy_markersOK text ttl now
+    decodeChk toyEnv text ttl now = some (decode toyEnv text ttl now) :=
+  decode_never_panics toyEnv toyEnv_wf toy_markersOK text ttl now
+
+/-- … and so does the plain condition on the marker hashes -/
+theorem toy_nonzero : MarkerHashesNonzero toyEnv := ⟨⟨0, by decide, by decide⟩, ⟨0, by decide, by decide⟩⟩
+example (text : List Char) (ttl : Option Nat) (now : Nat) :
+    decodeChk toyEnv text ttl now = some (decode toyEnv text ttl now) :=
+  decode_never_panics_of_hash toyEnv toyEnv_wf toy_nonzero text ttl now
 
 /-- the instrumented copy does compute something: text with a beacon, text with half a beacon, junk -/
-example : decodeChk true toyEnv ("x-".toList ++ toyBeacon ++ "ERzuw12".toList) (some 3) 1002 = some (normPeers toyPeers) ∧
-    decodeChk true toyEnv "ERzuw1rbzL ERzuwERzuw 1rbzL ERzuw".toList none 0 = some [] := by decide +kernel
+example : decodeChk toyEnv ("x-".toList ++ toyBeacon ++ "ERzuw12".toList) (some 3) 1002 = some (normPeers toyPeers) ∧
+    decodeChk toyEnv "ERzuw1rbzL ERzuwERzuw 1rbzL ERzuw".toList none 0 = some [] := by decide +kernel
 
 /-- `MarkersOK` is needed: a key whose marker hash is all zero makes `begin()` panic (`""[0..5]`) -/
 def zeroEnv : BeaconEnv := { ks := fun _ _ _ => List.replicate 64 0, h0 := fun _ => 0 }
 theorem zeroEnv_wf : EnvWF zeroEnv :=
   ⟨fun _ _ _ => ⟨Bytes.wf_replicate 64 0 (by decide), List.length_replicate⟩, fun _ => Nat.zero_lt_succ _⟩
-example : decodeChk false zeroEnv [] none 0 = none := by decide +kernel
+example : decodeChk zeroEnv [] none 0 = none := by decide +kernel
+
+/-! ### the regression record on concrete data: 4096 bytes through the old and the current mask loop -/
+
+example : maskFromOld toyEnv 2 9 (List.replicate 4095 0) 0 0 = some (mask toyEnv (List.replicate 4095 0) 2 9) ∧
+    maskFromOld toyEnv 2 9 (List.replicate 4096 0) 0 0 = none ∧
+    maskFromChk toyEnv 2 9 (List.replicate 4096 0) 0 0 = some (mask toyEnv (List.replicate 4096 0) 2 9) :=
+  ⟨(old_counter_overflows toyEnv toyEnv_wf 2 9 _).2 (by rw [List.length_replicate]; omega),
+   (old_counter_overflows toyEnv toyEnv_wf 2 9 _).1.mpr (by rw [List.length_replicate]; omega),
+   mask_never_panics toyEnv toyEnv_wf 2 9 _⟩
+
+/-- a body of 5000 bytes: the old code panicked in `decrypt_data`, the current code returns the body -/
+example : decryptDataOld toyEnv (encryptData toyEnv (List.replicate 5000 0)) = none :=
+  (old_decrypt_overflows toyEnv toyEnv_wf _).mpr (by rw [encryptData_length, List.length_replicate]; omega)
+example : decryptDataChk toyEnv (encryptData toyEnv (List.replicate 5000 0)) = some (some (List.replicate 5000 0)) :=
+  long_body_roundtrip_checked toyEnv toyEnv_wf _
+
+/-- small closed instance of the old loop, evaluated: with the counter started at block 255 the second block
+    boundary is the overflow -/
+example : maskFromOld toyEnv 2 9 (List.replicate 15 0) 255 0 = some (maskFrom toyEnv 2 9 (List.replicate 15 0) 255 0) ∧
+    maskFromOld toyEnv 2 9 (List.replicate 16 0) 255 0 = none ∧
+    maskFromChk toyEnv 2 9 (List.replicate 17 0) 255 0 = some (maskFrom toyEnv 2 9 (List.replicate 17 0) 255 0) ∧
+    (maskFrom toyEnv 2 9 (List.replicate 17 0) 255 0)[16]? = (mask toyEnv (List.replicate 1 0) 2 9)[0]? := by
+  decide +kernel
 
 /-! ### `embedded_found` -/
 
